@@ -396,6 +396,9 @@ func genC02(tier string, seed int64) (*Family, error) {
 		{"bare_return_in_if", []*pstmt{o(1), {kind: "if", cond: c(2), body: []*pstmt{o(3), {kind: "retvoid"}}}, as("x", "+=", "1"), o(4)}},
 		{"bare_return_in_for", []*pstmt{{kind: "for", lv: "i", bound: "n", body: []*pstmt{o(1), {kind: "if", cond: c(2), body: []*pstmt{{kind: "retvoid"}}}, as("y", "+=", "1")}}, o(3)}},
 		{"bare_return_in_forrange_else", []*pstmt{{kind: "forrange", lv: "p", body: []*pstmt{{kind: "if", cond: c(1), body: []*pstmt{o(2)}, elifs: []pelif{{c(5), []*pstmt{o(6)}}}, hasEl: true, els: []*pstmt{{kind: "retvoid"}}}, o(3)}}, o(4)}},
+		{"empty_elseif_body", []*pstmt{{kind: "if", cond: c(1), body: []*pstmt{o(2)}, elifs: []pelif{{c(3), nil}, {c(4), []*pstmt{o(5)}}}, hasEl: true, els: []*pstmt{o(6)}}, o(7)}},
+		{"empty_elseif_body_in_for", []*pstmt{{kind: "for", lv: "i", bound: "n", body: []*pstmt{{kind: "if", cond: pcond{kind: "cmp", l: "i", op: "==", r: "0"}, body: []*pstmt{o(1)}, elifs: []pelif{{c(2), nil}}, hasEl: true, els: []*pstmt{as("x", "+=", "i"), o(3)}}}}, o(4)}},
+		{"empty_if_and_else_bodies", []*pstmt{{kind: "if", cond: c(1), body: nil, elifs: []pelif{{c(2), []*pstmt{o(3)}}, {c(4), nil}}, hasEl: true, els: nil}, o(5), {kind: "for", lv: "i", bound: "2", body: nil}, as("y", "=", "i")}},
 		{"break_in_elseif", []*pstmt{{kind: "for", lv: "i", bound: "n", body: []*pstmt{o(1), {kind: "if", cond: c(2), body: []*pstmt{o(3)}, elifs: []pelif{{c(4), []*pstmt{{kind: "break"}}}}, hasEl: true, els: []*pstmt{o(5)}}, as("x", "+=", "1"), o(6)}}, o(7)}},
 		{"continue_in_elseif", []*pstmt{{kind: "forrange", lv: "p", body: []*pstmt{o(1), {kind: "if", cond: c(2), body: []*pstmt{o(3)}, elifs: []pelif{{c(4), []*pstmt{o(8)}}, {c(5), []*pstmt{{kind: "continue"}}}}}, as("y", "+=", "2"), o(6)}}, o(7)}},
 		{"break_continue_in_else", []*pstmt{{kind: "for", lv: "i", bound: "3", body: []*pstmt{{kind: "if", cond: c(1), body: []*pstmt{o(2)}, hasEl: true, els: []*pstmt{{kind: "if", cond: c(3), body: []*pstmt{{kind: "break"}}, hasEl: true, els: []*pstmt{{kind: "continue"}}}}}, o(4)}}, o(5)}},
@@ -457,6 +460,30 @@ func %s() {
 `, strings.ReplaceAll(stmt, "\n", " "), name, text)
 		fam.Instances = append(fam.Instances, Instance{Func: name, Stratum: "clause:unbound", Desc: "unassigned local in: " + strings.ReplaceAll(stmt, "\n", " "), Text: text, Expect: []string{"executed"}})
 	}
+	b.WriteString(`
+// an execution that bound a local and then failed leaves nothing behind: the next execution of the rule
+// (other branch) finds the local unassigned
+func Q_unbound_after_failed_execution() {
+	dc := context.NewDataContext()
+	dc.Add("t", func(id int64) { obs(int(id)) })
+	dc.Add("first", true)
+	rb := builder.NewRuleBuilder(dc)
+	must(rb.BuildRuleFromString("rule \"r\" begin\n if first {\n  tmp = 100\n  tmp += 11\n  t(1)\n  y = nosuch\n }\n t(2)\n out = tmp\n t(3)\n return out\nend\n"), "build")
+	eng := engine.NewGengine()
+	err := eng.Execute(rb, true)
+	vnd.Assert(err != nil && vnd.Count("t1") == 1 && vnd.Count("t2") == 0, "the first execution binds the local and then fails")
+	for round := 0; round < 3; round++ {
+		dc.Add("first", false)
+		err = eng.Execute(rb, true)
+		res, _ := eng.GetRulesResultMap()
+		vnd.Assert(err != nil, "a local can be read iff it was assigned before, in this execution")
+		_, has := res["r"]
+		vnd.Assert(!has && vnd.Count("t3") == 0, "no later statement runs after the read of an unassigned local")
+	}
+	vnd.Reach("executed")
+}
+`)
+	fam.Instances = append(fam.Instances, Instance{Func: "Q_unbound_after_failed_execution", Stratum: "clause:unbound", Desc: "a failed execution's locals are gone in the next execution", Expect: []string{"executed"}})
 	fam.Instances = append(fam.Instances, Instance{Func: "Q_visibility", Stratum: "clause:visibility", Desc: "local visibility across nesting", Expect: []string{"executed"}})
 	head := "package " + pkg + "\n\nimport (\n\t\"strconv\"\n\n\t\"github.com/bilibili/gengine/builder\"\n\t\"github.com/bilibili/gengine/context\"\n\t\"github.com/bilibili/gengine/engine\"\n\t\"github.com/bilibili/gengine/zz_verif/vnd\"\n)\n\nfunc must(err error, what string) {\n\tif err != nil {\n\t\tvnd.Assert(false, what+\" must succeed\")\n\t}\n}\n" + c02Lib
 	fam.Files[repoDir+"/zz_verif/"+pkg+"/h.go"] = head + b.String()
